@@ -484,14 +484,74 @@ def _pointless_cycle(st):
     return False
 
 
+FALLBACK = 'horz-join-split-bookkeeping'
+CLASSIFIER_RULES = {
+    NEST + 'container-is-sibling-split-of-origin': 'X unowned (or its nearest owner with points does not contain it); an OutRec O off X\'s owner chain reaches X '
+        'through its split list; the true container T != O is reachable from O\'s split list too (ProcessHorzJoins split branch or2->owner = or1->owner)',
+    NEST + 'no-live-owner-for-ring-in-split-off-hole': 'no OutRec with points on X\'s owner chain, X has no splits and is in no split list, T is an entry of a '
+        'split list (RecursiveCheckOwners has nothing to search)',
+    NEST + 'split-list-outer-before-inner': 'used parent P and true container T both in the split closure of one OutRec of X\'s owner chain, P not on the chain, '
+        'P\'s ring contains T\'s ring (CheckSplitOwner: first containing entry wins)',
+    NEST + 'container-owned-by-its-content': 'T in the split closure of X and X on T\'s owner chain (CheckSplitOwner: IsValidOwner refuses T)',
+    NEST + 'origin-of-split-not-searched': 'X in the split closure of T, or X in the split list of a point-less OutRec, and T not on X\'s owner chain',
+    NEST + 'container-among-own-splits': '(repaired 239d50c; not a known finding) T in the split closure of X, X not on T\'s owner chain',
+    NEST + 'owner-accepted-inside-split-search': '(repaired 239d50c; not a known finding) used parent P is ON X\'s dumped owner chain and T is P\'s descendant '
+        'candidate: T is an OutRec of the chain below P or reachable from the split list of one',
+    NEST + FALLBACK: 'FALLBACK, only when no rule above applies: a nesting failure (clause 33/34 at a node X, or at a node below it) where, in the OutRec state '
+        'dumped before BuildTree64, X, the parent P the tree uses, the true container T (innermost ring containing X, when there is one) or an OutRec '
+        'on the owner chain of one of them owns a non-empty split list or is an entry of / reachable from a split list.  No split list anywhere on X, P, T '
+        'and their owner chains -> NOT classified (reported under the plain clause key)',
+}
+
+
+def dumped_state(env, c, ct, fr, pc, rs, prec):
+    sc = 10 ** prec if prec else 1
+    cc = dict(S=[[(x * sc, y * sc) for x, y in p] for p in c['S']], O=[], C=[[(x * sc, y * sc) for x, y in p] for p in c['C']])
+    q = vf.run_lines(env.exes['owner'], [tree_line(cc, ct, fr, pc, rs)], timeout=60)
+    return parse_tree_answer(q.stdout.strip()) if q.returncode == 0 else None
+
+
+def split_bookkeeping_involved(st, nodes, k):
+    """the fallback rule (CLASSIFIER_RULES[NEST + FALLBACK])"""
+    if st is None or len(st['tree']) != len(nodes) or not (0 <= k < len(nodes)):
+        return False
+    paths = [n[3] for n in nodes]
+    X, P = st['tree'][k]
+    cont = [i for i in range(len(nodes)) if i != k and _contains(paths[i], paths[k])]
+    T = -1
+    if cont:
+        depth_of = {i: len([j for j in range(len(nodes)) if j != i and _contains(paths[j], paths[i])]) for i in cont}
+        T = st['tree'][max(cont, key=lambda i: depth_of[i])][0]
+    who = set()
+    for v in (X, P, T):
+        steps = 0
+        while v is not None and v >= 0 and v not in who and steps <= len(st['owner']):
+            who.add(v); v = st['owner'][v]; steps += 1
+    listed = set()
+    for O in range(len(st['pts'])):
+        if st['splits'][O]:
+            listed |= set(st['splits'][O]) | _split_closure(st, O)
+    return any(st['splits'][v] or v in listed for v in who)
+
+
 def classify_nesting(env, c, ct, fr, pc, rs, prec, nodes, k):
     """nodes = [(depth, hole, nchildren, path)] of the API answer in preorder, k = the node tree_check flagged.
-    -> mechanism name or None"""
+    -> mechanism name or None; the narrow rules first, then the call-site-level fallback"""
     try:
-        sc = 10 ** prec if prec else 1
-        cc = dict(S=[[(x * sc, y * sc) for x, y in p] for p in c['S']], O=[], C=[[(x * sc, y * sc) for x, y in p] for p in c['C']])
-        q = vf.run_lines(env.exes['owner'], [tree_line(cc, ct, fr, pc, rs)], timeout=60)
-        st = parse_tree_answer(q.stdout.strip()) if q.returncode == 0 else None
+        st = dumped_state(env, c, ct, fr, pc, rs, prec)
+    except Exception:
+        return None
+    m = _classify_narrow(st, nodes, k)
+    if m:
+        return m
+    try:
+        return FALLBACK if split_bookkeeping_involved(st, nodes, k) else None
+    except Exception:
+        return None
+
+
+def _classify_narrow(st, nodes, k):
+    try:
         if st is None or len(st['tree']) != len(nodes) or not (0 <= k < len(nodes)):
             return None
         paths = [n[3] for n in nodes]
@@ -530,8 +590,10 @@ def classify_nesting(env, c, ct, fr, pc, rs, prec, nodes, k):
                     return 'split-list-outer-before-inner'
         # the dumped owner chain of X: an owner (or, through a point-less split, an owner further up) was accepted although T is
         # reachable from the split list of one of them
+        # (the name of the defect repaired by 239d50c is only given when its mechanism shows: the parent the tree uses is an
+        # OutRec ON X's dumped owner chain; everything else of this shape goes to the fallback)
         o, steps = st['owner'][X], 0
-        while o >= 0 and steps <= len(st['owner']):
+        while o >= 0 and steps <= len(st['owner']) and P >= 0 and P in chain0:
             if o == T or T in _split_closure(st, o):
                 return 'owner-accepted-inside-split-search'
             o = st['owner'][o]; steps += 1
@@ -1318,6 +1380,9 @@ def run(ctx):
                        'free BooleanOp overloads) on a sample of the cases of (3) and on hand-built trees: equal to the harness traversal of the tree, '
                        'to the extracted model TreeCheck.fully_contains, to the text derived from the traversal, to Execute on a fresh object, and '
                        'PolyTreeD times the scale equal to the PolyTree64 of the scaled input')
+    ctx.cov['nesting_classifier_rules'] = dict(CLASSIFIER_RULES, note='X = the OutRec of the node tree_check flags (clause 33/34; for 34 also the nearest '
+                                               'flagged-or-not ancestor), P = its parent in the tree, T = the innermost ring that contains it; the number '
+                                               'of failing evaluations per key of this run is in failing_evaluations_by_key')
     ctx.assumptions += ['SetOwner is never called with outrec == new_owner and owners that are assigned exist (hypothesis run_ok of C04_owner_forest; '
                         'holds at every call site by inspection, and the self-owning result is exhibited by C04_owner_forest_refuted_without_wf)',
                         'CheckBounds is modelled on a state where it has been evaluated for every OutRec (the harness forces this before dumping)',
